@@ -96,6 +96,8 @@ pub fn exec_sparse(st: &mut State, name: &str, t: &[&str]) -> String {
             }
             return out.join(" ");
         },
+        // reference-setting directive for the driver only
+        "ref" => return "ok".to_string(),
         "eq" => {
             let other = st.sparse(t[1]).clone();
             return (*st.sparse(name) == other).to_string();
@@ -115,7 +117,7 @@ pub fn exec_sparse(st: &mut State, name: &str, t: &[&str]) -> String {
         "select0" => opt_usize(v.select_zero(parse_usize(t[1]))),
         "pred" => opt_pair(v.predecessor(parse_usize(t[1])).next()),
         "succ" => opt_pair(v.successor(parse_usize(t[1])).next()),
-        "ser" => words_to_string(&ser_words(v)),
+        "ser" | "doc" => words_to_string(&ser_words(v)),
         "it" => {
             let colon = t.iter().position(|x| *x == ":").expect("harness: it needs ':'");
             let calls = &t[colon + 1..];
